@@ -116,6 +116,7 @@ type Scn struct {
 	LedgerImgs map[string][]byte // optional: digest -> image (only if KeepImages)
 	KeepImages bool
 
+	WrapClient func(inner litestream.ReplicaClient) litestream.ReplicaClient
 	User       any // per-scenario state of the running check
 	LedgerRoot []uint32 // seq root page in effect when the ledger entry was recorded
 	lastTick   int64
@@ -132,7 +133,10 @@ type Scn struct {
 
 // New creates a fresh scenario: a new WAL-mode database with one table and one
 // row, an application connection, and a litestream DB (not yet synced).
-func New(cfg Config) (*Scn, error) {
+func New(cfg Config) (*Scn, error) { return NewOpt(cfg, nil) }
+
+// NewOpt is New with a hook that runs before the litestream objects are built.
+func NewOpt(cfg Config, pre func(s *Scn)) (*Scn, error) {
 	// Bucketed parents: creating/removing many entries in one shared parent
 	// directory serialises on that directory's lock.
 	n := dirSeq.Add(1)
@@ -159,6 +163,9 @@ func New(cfg Config) (*Scn, error) {
 	}
 	s.fd = fd
 	s.recordLedger()
+	if pre != nil {
+		pre(s)
+	}
 	if err := s.lsNew(); err != nil {
 		s.Destroy()
 		return nil, err
@@ -342,6 +349,10 @@ func (s *Scn) lsNew() error {
 	db.Replica = rep
 	client.Replica = rep
 	s.DB, s.Client = db, client
+	if s.WrapClient != nil {
+		// engine E4: litestream talks to the replica through a fault-injecting wrapper
+		rep.Client = s.WrapClient(client)
+	}
 
 	if s.Cfg.UseStore {
 		st := litestream.NewStore([]*litestream.DB{db}, s.Levels())
